@@ -26,7 +26,10 @@ RULE = (
     'for Omaha high/low; both hole + three board for Greek; largest '
     'rainbow/unpaired subset then lowest for badugi; best single card for '
     'Kuhn), be a legal selection of the given cards, and be None / ValueError '
-    'exactly when no legal combination exists. In-state: State.get_hand and '
+    'exactly when no legal combination exists; one input in five is '
+    'followed by the same cards split differently between hand and board '
+    'and by the same input given to sibling classes (results must not '
+    'depend on earlier evaluations). In-state: State.get_hand and '
     'get_up_hand agree with the oracle on sampled played states (thorough: '
     'also all C(47,3)/C(50,5)-strided boards for fixed holes). '
     'distinct_nontrivial = distinct (class, #hole, #board, reference '
@@ -40,9 +43,25 @@ TIME = {'quick': 70, 'thorough': 560}
 MIN_NONTRIVIAL = {'quick': 5000, 'thorough': 20000}
 REQUIRED = ('inputs', 'no_hand_cases', 'omaha_inputs', 'greek_inputs',
             'badugi_inputs', 'low_inputs', 'iterator_inputs',
-            'state_hands_checked')
+            'state_hands_checked', 'resplit_inputs', 'sibling_class_inputs')
 
 LOWISH = 'A2345678'
+# classes that share a deck/lookup/parent with another class: the same input
+# is also given to them right after (a cache keyed too coarsely would leak)
+SIBLINGS = {
+    'BadugiHand': ('StandardBadugiHand',),
+    'StandardBadugiHand': ('BadugiHand',),
+    'OmahaHoldemHand': ('OmahaEightOrBetterLowHand', 'GreekHoldemHand',
+                        'StandardHighHand'),
+    'OmahaEightOrBetterLowHand': ('OmahaHoldemHand', 'EightOrBetterLowHand'),
+    'GreekHoldemHand': ('OmahaHoldemHand', 'StandardHighHand'),
+    'StandardHighHand': ('StandardLowHand', 'ShortDeckHoldemHand',
+                         'RegularLowHand'),
+    'StandardLowHand': ('StandardHighHand', 'RegularLowHand'),
+    'RegularLowHand': ('EightOrBetterLowHand', 'StandardLowHand'),
+    'EightOrBetterLowHand': ('RegularLowHand', 'OmahaEightOrBetterLowHand'),
+    'ShortDeckHoldemHand': ('StandardHighHand',),
+}
 
 
 def gen_input(rng, clsname, kind, rule):
@@ -166,10 +185,15 @@ def check_input(res, rng, clsname, hole, board, form=None):
     if type(hand) is not cls:
         res.violation(
             f'{clsname}.from_game returned a {type(hand).__name__}', payload)
-    if none2 is not None and none2 != hand:
-        res.violation(
-            f'{clsname}: from_game_or_none {none2!r} != from_game {hand!r}',
-            payload)
+    if none2 is not None:
+        got2 = hr.strength(kind, low, none2.cards)
+        if none2 != hand or got2 != best or not hr.obeys_rule(
+                clsname, none2.cards, hole, board):
+            res.violation(
+                f'{clsname}.from_game_or_none({text_of(hole)!r}, '
+                f'{text_of(board)!r}) = {none2!r} (strength {got2}), '
+                f'from_game gives {hand!r}, best legal strength {best}',
+                payload)
     res.sigs.add(sig(clsname, len(hole), len(board), best))
 
 
@@ -249,6 +273,22 @@ def run_shard(seed, shard, of, tier, deadline):
                 len(hole) + len(board) > 10:
             board = board[:4]
         check_input(res, rng, clsname, hole, board)
+        if rng.random() < 0.2 and hole and board:
+            # the same cards split differently between hand and board (and,
+            # below, given to a sibling class): results may depend on the
+            # split and the class only, never on what was evaluated before
+            cards = list(hole) + list(board)
+            for _ in range(2):
+                rng.shuffle(cards)
+                h2, b2 = cards[:len(hole)], cards[len(hole):]
+                check_input(res, rng, clsname, h2, b2)
+                res.counters['resplit_inputs'] += 1
+            for other in SIBLINGS.get(clsname, ()):
+                if other == 'GreekHoldemHand' and len(hole) > 2:
+                    continue     # Greek hold'em is a two-hole-card game
+                if all(c in DECKS[hr.CLASSES[other][0]] for c in cards):
+                    check_input(res, rng, other, hole, board)
+                    res.counters['sibling_class_inputs'] += 1
         res.counters[{'omaha': 'omaha_inputs', 'greek': 'greek_inputs',
                       'badugi': 'badugi_inputs'}.get(rule,
                                                       'any5_inputs')] += 1
